@@ -182,12 +182,15 @@ def points(c, rng):
             P.append(("cart", "cart %d" % L, wav_file([(b"cart", L, body)]), "vio", lambda o, l, m, L=L: obs_cart(o, l, m, L)))
 
     # LIST / INFO string -----------------------------------------------------------------------------
-    def obs_info(opened, log, meta, s, cs):
+    def obs_info(opened, log, meta, s, cs, later=False):
         m = re.search(r"\*\*\* ISFT : (\d+) \(too big\)", log)
         if m:
             return "too-big %s" % m.group(1)
         m = re.search(r"    ISFT : (\d+) \(too long, skipping\)", log)
         if m:
+            # repair (a): only that item is skipped -- the IART item the roomy files carry behind it must still arrive
+            if opened and later and meta.get("s4", "null") == "null":
+                return "skip %s LATER-ITEM-LOST" % m.group(1)
             return "skip %s" % m.group(1)
         m = re.search(r"    ISFT : (\d+) \(cannot be read, skipping\)", log)
         if m:                                                   # memset + header_read were done: the site's "read"; the header cache refused
@@ -209,12 +212,12 @@ def points(c, rng):
             text = bytes([A]) * min(s, cap) + (b"\0" if s & 1 else b"")
             sub = b"INFO" + b"ISFT" + struct.pack("<I", s) + text
             lc = len(sub) if fit == "exact" else (len(sub) - 1 if fit == "minus1" else len(sub) + 10)
-            lbody = sub if fit != "roomy" else sub + b"IXXX" + struct.pack("<I", 2) + b"zz"
+            lbody = sub if fit != "roomy" else sub + b"IART" + struct.pack("<I", 2) + b"z\0"
             if fit == "minus1" and (s > cap or len(sub) < 13):
                 continue
             if s > cap:
                 lc = 12 + cap                                   # the LIST chunk is what it is; the size field lies
-            P.append(("info", "info %d 12 %d" % (s, lc), wav_file([(b"LIST", lc, lbody)]), "vio", lambda o, l, m, s=s, cs=cs: obs_info(o, l, m, s, cs)))
+            P.append(("info", "info %d 12 %d" % (s, lc), wav_file([(b"LIST", lc, lbody)]), "vio", lambda o, l, m, s=s, cs=cs, later=(fit == "roomy"): obs_info(o, l, m, s, cs, later)))
 
     # cue ---------------------------------------------------------------------------------------------
     def obs_cue(opened, log, meta, count):
